@@ -100,6 +100,14 @@ func VerifHarness_Stake_Deliver() {
 		// one (frozen-fund keys are fixed-width encodings of the height)
 		due = []uint64{u.height - 1, u.height, u.height + 1, u.height + 100000}[verifChoice("dueBlock", 4)]
 		u.ffHeights = append(u.ffHeights, due)
+		if verifConfig("maturedBatch") == 1 {
+			// a frozen-fund batch of this very height has just matured: BeginBlock
+			// paid it out and flagged it deleted (it leaves the tree at commit)
+			pk := P
+			st.FrozenFunds.AddFund(u.height, u.B, &pk, st.Candidates.ID(P), 0, big.NewInt(12345), 0)
+			st.Accounts.AddBalance(u.B, 0, big.NewInt(12345))
+			st.FrozenFunds.Delete(u.height)
+		}
 		tx = verifTx(nonce0+1, verifGasPrice(), 0, TypeLock, LockData{DueBlock: uint32(due), Coin: 0, Value: value})
 	case 3:
 		tx = verifTx(nonce0+1, verifGasPrice(), 0, TypeDelegate, DelegateDataV260{PubKey: Q, Coin: 0, Value: value})
